@@ -20,7 +20,7 @@ import (
 
 // raceBackends: where the concurrent parts run - mostly the cheap stores, sometimes badger
 // exactly as shipped (badgerstore.Open, default options, on disk)
-var raceBackends = []string{run.Bbolt, run.Bbolt, run.Bbolt, run.Bbolt, run.BadgerMem, run.BadgerMem, run.BadgerMem, run.BadgerMem, run.BadgerDefault}
+var raceBackends = []string{run.Bbolt, run.Bbolt, run.Bbolt, run.BadgerMem, run.BadgerMem, run.BadgerMem, run.BadgerDefault, run.BadgerDefault}
 
 // c13Race: several clients try to create the same collection name at the same time
 // through CreateCollection, CreateCollectionByQuery and ImportCollection, with the schedule
